@@ -4,6 +4,7 @@ import OhkamiModel.Drv.C03
 import OhkamiModel.Drv.C09
 import OhkamiModel.Drv.C12
 import OhkamiModel.Drv.C13
+import OhkamiModel.Drv.C14
 import OhkamiModel.Drv.C17
 import OhkamiModel.Drv.C18
 import OhkamiModel.Drv.C19
@@ -28,6 +29,7 @@ def main (args : List String) : IO UInt32 := do
   | ["C09"] => loop stdin DrvC09.runCase; return 0
   | ["C12"] => loop stdin DrvC12.runCase; return 0
   | ["C13"] => loop stdin DrvC13.runCase; return 0
+  | ["C14"] => loop stdin DrvC14.runCase; return 0
   | ["C17"] => loop stdin DrvC17.runCase; return 0
   | ["C18"] => loop stdin DrvC18.runCase; return 0
   | ["C19"] => loop stdin DrvC19.runCase; return 0
